@@ -147,9 +147,21 @@ func (g *gen) basic(family string, i int, seed uint64) *scenario {
 	}
 	parent := J{"apiVersion": ctl.ParentAPIVersion, "kind": ctl.ParentKind, "metadata": pmd,
 		"spec": J{"selector": J{"matchLabels": J{"app": app}}, "replicas": int64(2)}}
+	bothParts := false
 	if r.Chance(1, 6) {
 		parent["spec"].(J)["selector"] = J{"matchExpressions": A{J{"key": "app", "operator": "In", "values": A{app, "other"}}}}
 		sc.Features = append(sc.Features, "match-expressions")
+	} else if g.twins || r.Chance(1, 5) {
+		if r.Chance(1, 3) {
+			// labels AND an expression: both must hold
+			parent["spec"].(J)["selector"] = J{"matchLabels": J{"app": app}, "matchExpressions": A{J{"key": "tier", "operator": "NotIn", "values": A{"canary"}}}}
+			sc.Features = append(sc.Features, "labels-and-expressions")
+			bothParts = true
+		} else if !ctl.GenSelector && r.Chance(1, 6) {
+			// a selector that is there but says nothing: refused like a missing one (it would select everything)
+			parent["spec"].(J)["selector"] = []interface{}{J{"matchLabels": J{}}, J{"matchExpressions": A{}}, J{"matchLabels": nil}}[r.Intn(3)]
+			sc.Features = append(sc.Features, "selector-empty-content")
+		}
 	}
 	sc.Parent = parent
 	// desired children
@@ -332,6 +344,21 @@ func (g *gen) basic(family string, i int, seed uint64) *scenario {
 				Data: J{"apiVersion": pr.APIVersion, "kind": pr.Kind, "namespace": pr.Namespace, "name": pr.Name}})
 			sc.Features = append(sc.Features, "foreign-controlled-lists-parent-as-owner")
 		}
+	}
+	if bothParts {
+		// objects that satisfy the labels and fail the expression: orphans (not to be adopted), owned ones (to be released)
+		var more []extOp
+		for _, op := range sc.Setup {
+			md, _ := op.Data["metadata"].(J)
+			_, foreign := md["ownerReferences"]
+			if (op.Op == "orphan" || (op.Op == "create" && !foreign) || op.Op == "edit") && r.Bool() {
+				e := op
+				e.Op, e.Data = "relabel-merge", J{"tier": "canary"}
+				more = append(more, e)
+				sc.Features = append(sc.Features, "excluded-by-expression-only")
+			}
+		}
+		sc.Setup = append(sc.Setup, more...)
 	}
 	nr := 1 + r.Intn(3)
 	for j := 0; j < nr; j++ {
@@ -666,7 +693,7 @@ func (g *gen) malformed(i int, seed uint64) *scenario {
 		return fmt.Sprintf(`{"apiVersion":%q,"kind":%q,"metadata":{"name":%q,"labels":{"app":%q}%s},"spec":{"x":1}}`,
 			k.APIVersion, k.Kind, name, sc.Parent["spec"].(J)["selector"].(J)["matchLabels"].(J)["app"], ns)
 	}
-	if _, ok := sc.Parent["spec"].(J)["selector"].(J)["matchLabels"]; !ok {
+	if ml, ok := sc.Parent["spec"].(J)["selector"].(J)["matchLabels"].(J); !ok || ml["app"] == nil {
 		sc.Parent["spec"].(J)["selector"] = J{"matchLabels": J{"app": "app0"}}
 	}
 	fields := map[string]string{
@@ -1319,8 +1346,39 @@ func generateScenarios(prop string, seed uint64, n int, adv bool) []*scenario {
 	var out []*scenario
 	for i := 0; i < n; i++ {
 		r, s := root.Fork()
-		g := &gen{r: r, adv: adv, oddMethods: prop == "C06", twins: prop == "C06" || prop == "C03"}
+		g := &gen{r: r, adv: adv, oddMethods: prop == "C06", twins: prop == "C06" || prop == "C03" || prop == "C02" || prop == "C04"}
 		switch {
+		case (prop == "C02" || prop == "C04") && i%16 == 10:
+			// a selector of labels AND an expression; orphans and owned children that satisfy the labels and fail
+			// the expression (never to be adopted; to be released)
+			sc := g.basic("labels-and-expressions", i, s)
+			ok := func(sc *scenario) bool {
+				if !sc.hasFeature("labels-and-expressions") || sc.Ctl.GenSelector || !sc.Warmup {
+					return false
+				}
+				for _, op := range sc.Setup {
+					if op.Op == "orphan" {
+						return true
+					}
+				}
+				return false
+			}
+			for tries := 0; tries < 200 && !ok(sc); tries++ {
+				sc = g.basic("labels-and-expressions", i, s)
+			}
+			if ok(sc) {
+				var more []extOp
+				for _, op := range sc.Setup {
+					if op.Op == "orphan" || op.Op == "edit" {
+						e := op
+						e.Op, e.Data = "relabel-merge", J{"tier": "canary"}
+						more = append(more, e)
+					}
+				}
+				sc.Setup = append(sc.Setup, more...)
+				sc.Features = append(sc.Features, "excluded-by-expression-only")
+			}
+			out = append(out, sc)
 		case prop == "C02" && i%2 == 1:
 			out = append(out, g.race(i, s))
 		case prop == "C02" && i%4 == 2:
